@@ -40,6 +40,9 @@ def path_worlds():
     for d, fn, ext in itertools.product(DIRS, FILES, EXTS):
         n += 1
         w = World('path-%d' % n)
+        if n % 2 == 0:
+            # the test changed its working directory before the calls (os.Chdir / t.Chdir into a scratch directory)
+            w.add('chdir %s' % hx('scratch/cwd'))
         w.add('cfgrel 1 %s %s %s' % ('=' if d == '' else hx(d) if d != '-' else '-', hx(fn) if fn != '-' else '-', hx(ext) if ext != '-' else '-'))
         for name in NAMES:
             for sa in (0, 1):
